@@ -24,6 +24,10 @@ from tools.corr.C07 import PySpec
 
 LD = np.longdouble
 EVENT_KINDS = ("generic", "massless", "near-threshold", "boosted", "mixed-scales")
+# every family except "rest-frame" gives events in which the initial state is MOVING (the momenta
+# are drawn in the lab; nothing is boosted to the rest frame of the total momentum): defects that
+# vanish when the two children of the top node are back to back need such events.
+EXTRA_KINDS = ("rest-frame", "all-massless")  # plus "massless-at:<k>" with k cycling over the positions
 
 
 # --------------------------------------------------------------------------- events
@@ -60,8 +64,17 @@ def random_events(rng, ids, n_events: int, kind: str, cm_frame: bool = False) ->
     ids = list(ids)
     n = len(ids)
     masses = {}
+    if kind == "rest-frame":
+        kind, cm_frame = "generic", True
+    massless_at = None
+    if kind.startswith("massless-at:"):
+        massless_at = ids[int(kind.split(":")[1]) % n]
     for i in ids:
-        if kind == "massless":
+        if massless_at is not None:
+            masses[i] = 0.0 if i == massless_at else rs.uniform(0.05, 2.0)
+        elif kind == "all-massless":
+            masses[i] = 0.0
+        elif kind == "massless":
             masses[i] = 0.0 if rs.uniform() < 0.6 else rs.uniform(0.05, 2.0)
         elif kind == "mixed-scales":
             masses[i] = float(10 ** rs.uniform(-3, 1))
@@ -225,6 +238,16 @@ def check_topology(chk, topology, variant: str, rng, n_events: int, kinds=EVENT_
     for kind in kinds:
         momenta = random_events(rng, ids, n_events, kind)
         rs = np.random.default_rng(rng.getrandbits(64))
+        tot = sum(momenta.values())
+        speed = np.sqrt(np.sum(tot[:, 1:] ** 2, axis=1)) / tot[:, 0]
+        key = "events_initial_state_at_rest" if kind == "rest-frame" else "events_initial_state_moving"
+        stats[key] = stats.get(key, 0) + len(speed)
+        if kind != "rest-frame":
+            stats["min_initial_state_speed"] = float(min(stats.get("min_initial_state_speed", 1.0), float(np.min(speed))))
+        shape = _shape_of(spec)
+        stats.setdefault("moving_events_by_shape", {})
+        if kind != "rest-frame":
+            stats["moving_events_by_shape"][shape] = stats["moving_events_by_shape"].get(shape, 0) + len(speed)
         pert = perturbed(momenta, rs, 1e-10)
         for cse in cse_modes:
             try:
@@ -295,6 +318,13 @@ def check_topology(chk, topology, variant: str, rng, n_events: int, kinds=EVENT_
                     if detail is None:
                         detail = (chain, target, th_f, phi_f, tol_th, tol_phi)
                 fails = judged_any & ~ok_any
+                if detail is not None and judged_any.any() and len(accept) == 1:
+                    _, _, th_f0, _, tol_th0, _ = detail
+                    with np.errstate(all="ignore"):
+                        ratio = np.abs(got_th - th_f0) / tol_th0
+                    ratio = ratio[judged_any & ok_any & np.isfinite(ratio)]
+                    if len(ratio):
+                        stats["worst_theta_error_over_tolerance"] = float(max(stats.get("worst_theta_error_over_tolerance", 0.0), float(np.max(ratio))))
                 stats["angle_points"] = stats.get("angle_points", 0) + int(np.sum(judged_any))
                 stats["angle_skipped_ill_conditioned"] = stats.get("angle_skipped_ill_conditioned", 0) + int(np.sum(~judged_any))
                 chk.count(("angle", _topo_repr(topology), sfx, kind) if judged_any.any() else None, n=int(np.sum(judged_any)))
@@ -312,6 +342,19 @@ def check_topology(chk, topology, variant: str, rng, n_events: int, kinds=EVENT_
                         "tolerance": {"phi": float(tol_phi[j]), "theta": float(tol_th[j])},
                     })
     return bad
+
+
+def _shape_of(spec) -> str:
+    """shape of a decay tree by sizes only, e.g. '(2)(3:(1)(2))': which nodes have two decaying children"""
+
+    def rec(item):
+        _, ids, ch = item
+        if not ch:
+            return "1"
+        a, b = sorted((rec(c) for c in ch), key=lambda x: (len(x), x))
+        return f"({a} {b})"
+
+    return rec(spec.root)
 
 
 def _topo_repr(topology) -> str:
@@ -462,3 +505,194 @@ def guard_probes(cache=None) -> dict:
         except Exception as e:  # noqa: BLE001
             out[name] = f"{type(e).__name__}: {e}"[:200]
     return out
+
+
+# --------------------------------------------------------------------------- rules 1, 2, 7 of notes/HARDENING.md
+
+
+def _np_boostz(b):
+    g = 1 / np.sqrt(1 - b * b)
+    z, o = np.zeros_like(b), np.ones_like(b)
+    return np.array([[g, z, z, -g * b], [z, o, z, z], [z, z, o, z], [-g * b, z, z, g]]).transpose(2, 0, 1)
+
+
+def _np_roty(a):
+    c, s_ = np.cos(a), np.sin(a)
+    z, o = np.zeros_like(a), np.ones_like(a)
+    return np.array([[o, z, z, z], [z, c, z, s_], [z, z, o, z], [z, -s_, z, c]]).transpose(2, 0, 1)
+
+
+def _np_rotz(a):
+    c, s_ = np.cos(a), np.sin(a)
+    z, o = np.zeros_like(a), np.ones_like(a)
+    return np.array([[o, z, z, z], [z, c, -s_, z], [z, s_, c, z], [z, z, z, o]]).transpose(2, 0, 1)
+
+
+def check_compound_arguments(chk, rng, stats, n_events: int = 6) -> list[dict]:
+    """Phi, Theta, InvariantMass, Energy, FourMomentumX/Y/Z, EuclideanNorm(ThreeMomentum),
+    EuclideanNormSquared(ThreeMomentum) constructed on COMPOUND array expressions (ArraySum,
+    single-term ArraySum, ArrayMultiplication of the three matrix classes, ArraySum of an
+    ArrayMultiplication, ArrayMultiplication of an ArraySum, NegativeMomentum of an ArraySum):
+    the generated numpy code of the folded form (where the class prints itself) and of the
+    unfolded form, cse off and on, against the definition evaluated by plain numpy.
+    Forms the clean tree cannot print (PrintMethodNotImplementedError for folded Phi/Theta/…)
+    are recorded, not judged; an UNFOLDED form that does not lambdify is a failing input."""
+    import sympy as sp
+
+    from ampform.kinematics import lorentz as lz
+    from ampform.kinematics.angles import Phi, Theta
+    from ampform.sympy._array_expressions import ArrayMultiplication, ArraySum
+
+    bad: list[dict] = []
+    p0, p1 = lz.create_four_momentum_symbol(0), lz.create_four_momentum_symbol(1)
+    b, a1, a2 = sp.symbols("b a1 a2", real=True)
+    n = lz.ArraySize(p0)
+    mats = (lz.BoostZMatrix(b, n), lz.RotationYMatrix(a1, n), lz.RotationZMatrix(a2, n))
+    rs = np.random.default_rng(rng.getrandbits(64))
+    P0 = rs.normal(size=(n_events, 4)); P0[:, 0] = np.abs(P0[:, 0]) + 3
+    P1 = rs.normal(size=(n_events, 4)); P1[:, 0] = np.abs(P1[:, 0]) + 3
+    B, A1, A2 = rs.uniform(0.1, 0.8, n_events), rs.uniform(-1, 1, n_events), rs.uniform(-3, 3, n_events)
+    M = np.einsum("nij,njk,nkl->nil", _np_boostz(B), _np_roty(A1), _np_rotz(A2))
+    mul0 = np.einsum("nij,nj->ni", M, P0)
+    flip = np.array([1.0, -1.0, -1.0, -1.0])
+    compounds = {
+        "ArraySum(p0,p1)": (ArraySum(p0, p1), P0 + P1),
+        "ArraySum(p0)": (ArraySum(p0), P0),
+        "ArrayMultiplication(Bz,Ry,Rz,p0)": (ArrayMultiplication(*mats, p0), mul0),
+        "ArraySum(ArrayMultiplication(Bz,Ry,Rz,p0),p1)": (ArraySum(ArrayMultiplication(*mats, p0), p1), mul0 + P1),
+        "ArrayMultiplication(Bz,Ry,Rz,ArraySum(p0,p1))": (ArrayMultiplication(*mats, ArraySum(p0, p1)),
+                                                        np.einsum("nij,nj->ni", M, P0 + P1)),
+        "NegativeMomentum(ArraySum(p0,p1))": (lz.NegativeMomentum(ArraySum(p0, p1)), (P0 + P1) * flip),
+    }
+
+    def norm3(v):
+        return np.sqrt(np.sum(v[:, 1:] ** 2, axis=1))
+
+    classes = {
+        "Phi": (Phi, lambda v: np.arctan2(v[:, 2], v[:, 1])),
+        "Theta": (Theta, lambda v: np.arccos(v[:, 3] / norm3(v))),
+        "InvariantMass": (lz.InvariantMass, lambda v: np.sqrt((v[:, 0] ** 2 - norm3(v) ** 2).astype(complex))),
+        "Energy": (lz.Energy, lambda v: v[:, 0]),
+        "FourMomentumX": (lz.FourMomentumX, lambda v: v[:, 1]),
+        "FourMomentumY": (lz.FourMomentumY, lambda v: v[:, 2]),
+        "FourMomentumZ": (lz.FourMomentumZ, lambda v: v[:, 3]),
+        "EuclideanNorm(ThreeMomentum)": (lz.three_momentum_norm, norm3),
+        "EuclideanNormSquared(ThreeMomentum)": (lambda a: lz.EuclideanNormSquared(lz.ThreeMomentum(a)), lambda v: norm3(v) ** 2),
+    }
+    unprintable = 0
+    for cname, (arg, value) in compounds.items():
+        for kname, (cls, ref_fn) in classes.items():
+            expr = cls(arg)
+            ref = np.asarray(ref_fn(value), dtype=complex)
+            for form, ex in (("folded", expr), ("unfolded", expr.doit())):
+                for cse in (False, True):
+                    try:
+                        f = sp.lambdify([p0, p1, b, a1, a2], ex, "numpy", cse=cse)
+                        with np.errstate(all="ignore"):
+                            got = np.broadcast_to(np.asarray(f(P0, P1, B, A1, A2), dtype=complex), ref.shape)
+                    except Exception as e:  # noqa: BLE001
+                        if form == "folded":
+                            unprintable += 1
+                            continue
+                        bad.append({"what": f"the unfolded {kname} of a compound array expression does not lambdify",
+                                    "argument": cname, "cse": cse, "error": f"{type(e).__name__}: {e}"[:200]})
+                        continue
+                    chk.count(("compound", cname, kname, form, cse), n=len(ref))
+                    stats["compound_points"] = stats.get("compound_points", 0) + len(ref)
+                    scale = np.maximum(1.0, np.abs(ref))
+                    if not np.all(np.abs(got - ref) <= 1e-9 * scale):
+                        j = int(np.argmax(np.abs(got - ref) / scale))
+                        bad.append({"what": f"generated code of {kname} on a compound array expression differs from its definition",
+                                    "argument": cname, "form": form, "cse": cse,
+                                    "event": {"p0": P0[j].tolist(), "p1": P1[j].tolist(), "b": float(B[j]), "a1": float(A1[j]), "a2": float(A2[j])},
+                                    "observed": repr(complex(got[j])), "expected": repr(complex(ref[j]))})
+    stats["compound_folded_forms_not_printable"] = unprintable
+    return bad
+
+
+def check_invariant_mass_dtypes(chk, rng, stats, n_events: int = 40) -> list[dict]:
+    """InvariantMass of time-like, light-like and SPACE-like sums: real (float64) and complex
+    (complex128) input arrays, cse off and on, one and three summed momenta, against
+    sqrt(E²−|p|²) resp. i·sqrt(|p|²−E²) (positive imaginary part for space-like sums)."""
+    import sympy as sp
+
+    from ampform.kinematics import lorentz as lz
+    from ampform.sympy._array_expressions import ArraySum
+
+    bad: list[dict] = []
+    ps = [lz.create_four_momentum_symbol(i) for i in range(3)]
+    rs = np.random.default_rng(rng.getrandbits(64))
+    for k in (1, 2, 3):
+        expr = lz.InvariantMass(ArraySum(*ps[:k])).doit()
+        for cse in (False, True):
+            f = sp.lambdify(ps[:k], expr, "numpy", cse=cse)
+            for family in ("time-like", "space-like", "mixed"):
+                arrs = []
+                for _ in range(k):
+                    v = rs.normal(size=(n_events, 4)) * 2
+                    if family == "time-like":
+                        v[:, 0] = np.sqrt(np.sum(v[:, 1:] ** 2, axis=1)) + rs.uniform(0.05, 2, n_events)
+                    elif family == "space-like":
+                        v[:, 0] = rs.uniform(0, 0.2, n_events)
+                    arrs.append(v)
+                tot = sum(arrs)
+                msq = tot[:, 0] ** 2 - np.sum(tot[:, 1:] ** 2, axis=1)
+                want = np.where(msq >= 0, np.sqrt(np.abs(msq)), 1j * np.sqrt(np.abs(msq)))
+                for dt in (float, complex):
+                    try:
+                        with np.errstate(all="ignore"):
+                            got = np.asarray(f(*[a.astype(dt) for a in arrs]), dtype=complex)
+                    except Exception as e:  # noqa: BLE001
+                        bad.append({"what": "InvariantMass does not evaluate", "dtype": dt.__name__, "cse": cse,
+                                    "n_momenta": k, "family": family, "error": f"{type(e).__name__}: {e}"[:200]})
+                        continue
+                    chk.count(("invariant-mass-dtype", k, cse, family, dt.__name__), n=n_events)
+                    stats["mass_dtype_points"] = stats.get("mass_dtype_points", 0) + n_events
+                    # compare the squares with the scale of the terms; the branch (real vs +i) exactly
+                    scale = np.maximum(1e-300, tot[:, 0] ** 2 + np.sum(tot[:, 1:] ** 2, axis=1))
+                    ok_sq = np.abs((got * got).real - msq) <= 1e-11 * scale
+                    clear = np.abs(msq) > 1e-9 * scale
+                    ok_branch = ~clear | ((msq > 0) & (np.abs(got.imag) <= 1e-9 * np.sqrt(scale)) & (got.real > 0)) \
+                        | ((msq < 0) & (np.abs(got.real) <= 1e-9 * np.sqrt(scale)) & (got.imag > 0))
+                    if not np.all(ok_sq & ok_branch):
+                        j = int(np.argmin(ok_sq & ok_branch))
+                        bad.append({"what": "InvariantMass is not the (complex) Minkowski norm of the summed momenta",
+                                    "dtype": dt.__name__, "cse": cse, "n_momenta": k, "family": family,
+                                    "momenta": [a[j].tolist() for a in arrs], "observed": repr(complex(got[j])),
+                                    "expected": repr(complex(want[j]))})
+    return bad
+
+
+def check_numbers_vs_symbols(chk, stats) -> list[dict]:
+    """the matrix classes called with exact numbers (Rational, 0, int, float, pi fractions) vs the
+    symbolic explicit matrix with the numbers substituted (rule 1)"""
+    import sympy as sp
+
+    from ampform.kinematics import lorentz as lz
+
+    bad: list[dict] = []
+    x = sp.Symbol("x", real=True)
+    n = sp.Symbol("n", integer=True, positive=True)
+    cases = {
+        lz.BoostZMatrix: [sp.Rational(3, 5), sp.Integer(0), sp.Rational(-4, 5), sp.Float(0.25)],
+        lz.RotationYMatrix: [sp.Integer(0), sp.pi / 2, sp.pi, sp.Rational(1, 3), -sp.pi / 3, sp.Float(0.7)],
+        lz.RotationZMatrix: [sp.Integer(0), sp.pi / 2, sp.pi, sp.Rational(1, 3), -sp.pi / 3, sp.Float(0.7)],
+    }
+    for cls, values in cases.items():
+        sym = cls(x, n).as_explicit()
+        for v in values:
+            try:
+                direct = cls(v, n).as_explicit()
+                subst = sym.subs(x, v)
+                diff = (direct - subst).applyfunc(lambda e: abs(complex(sp.N(e.doit() if hasattr(e, "doit") else e, 30))))
+                worst = max(diff)
+            except Exception as e:  # noqa: BLE001
+                bad.append({"what": f"{cls.__name__} with a numeric argument raised", "argument": str(v),
+                            "error": f"{type(e).__name__}: {e}"[:200]})
+                continue
+            chk.count(("numbers-vs-symbols", cls.__name__, str(v)))
+            stats["numbers_vs_symbols_cases"] = stats.get("numbers_vs_symbols_cases", 0) + 1
+            if worst > 1e-12:
+                bad.append({"what": f"{cls.__name__}(number).as_explicit() differs from the symbolic matrix with the number substituted",
+                            "argument": str(v), "direct": str(direct), "substituted": str(subst)})
+    return bad
